@@ -70,6 +70,7 @@ def _impl_signal(c):
         if not dfo['is_burst'].equals(df['is_burst']):
             raise AssertionError('Bycycle object (history, shorthand threshold names) labels differ from compute_features')
     rows = [[float(df[f].values[i]) for f in FEATS] for i in range(len(df))]
+    _impl_signal.df = df
     return rows, ['ok', proto.enc_bits(list(df['is_burst'].values.astype(bool)))]
 
 def _rand_th(rng, vals):
@@ -154,14 +155,19 @@ def evaluate(ctx, cases):
     sd = ctx.notes.get('_slot_defaults')
     if sd is None:
         sd = ctx.notes['_slot_defaults'] = _slot_defaults()
-    pre = []
+    pre = []; pipes = {}
     for c in cases:
         if c['kind'] == 'signal':
+            _impl_signal.df = None
             try:
                 rows, impl = _impl_signal(c)
             except Exception as e:
                 rows, impl = [], ['err', type(e).__name__]
             pre.append((rows, impl))
+            if _impl_signal.df is not None and len(_impl_signal.df):
+                # the LABEL projection of the composed Lean model (pipelineCycles) against the table of compute_features
+                rq = implutil.pipeline_request(proto.hex2arr(c['sig']), c['fs'], c['f_range'], c['center'], None, None, None, c['th'])
+                if rq is not None: pipes[id(c)] = (rq, _impl_signal.df)
         else:
             pre.append((c['rows'], _impl_table(c['rows'], dict(c['th']))))
     reqs = []
@@ -172,6 +178,8 @@ def evaluate(ctx, cases):
         if c['kind'] == 'antitone':
             reqs.append('cycles.spec %s %s' % (r, _enc_th(_full(c['th2'], DOC_DEFAULTS))))
     ans = proto.run_driver(reqs)
+    pkeys = list(pipes)
+    pipe_ans = dict(zip(pkeys, proto.run_driver([pipes[k][0] for k in pkeys])))
     out = []; j = 0
     for c, (rows, impl) in zip(cases, pre):
         model, spec = ans[j], ans[j + 1]; j += 2
@@ -189,6 +197,11 @@ def evaluate(ctx, cases):
                     judge_ok = False; info['antitone_violated'] = True
         if c['kind'] == 'signal' and impl[0] == 'err':
             judge_ok = False     # valid options on a generated signal must not raise
+        if id(c) in pipe_ans and corr_ok:
+            pj = implutil.pipeline_projections(pipe_ans[id(c)], pipes[id(c)][1], c['center'], c['th'])
+            if pj['labels'] is not None and not pj['labels'].startswith('tie:'):
+                corr_ok = False; info['pipeline'] = pj['labels']
+            ctx.hist('pipeline labels', 'agrees' if pj['labels'] is None else ('float tie' if pj['labels'].startswith('tie:') else 'differs'))
         nt = impl[0] == 'err' or (impl[0] == 'ok' and '1' in impl[1] and '0' in impl[1][1:-1])
         ctx.hist('kind', c['kind']); ctx.hist('outcome', impl[1] if impl[0] == 'err' else 'ok')
         key = (c['kind'], repr(rows), repr(sorted(c['th'].items())), repr(sorted(c.get('th2', {}).items())))
